@@ -58,6 +58,7 @@ elif kind == 'c04':
                 cases.append((f"$[?@{op}{l}]", [x]))                     # node vs literal
                 cases.append((f"$[?{l}{op}@]", [x]))
             cases.append((f"$[?length(@){op}1]", [x])); cases.append((f"$[?count(@.*){op}1]", [x])); cases.append((f"$[?value(@.*){op}1]", [x]))
+            cases.append((f"$[?length(@){op}1.0]", [x])); cases.append((f"$[?count(@.*){op}1e0]", [x])); cases.append((f"$[?1.0{op}value(@.*)]", [x])); cases.append((f"$[?length(@){op}count(@.*)]", [x]))
     for a in LITS:
         for b in LITS:
             for op in OPS: cases.append((f"$[?{a}{op}{b}]", [0]))
@@ -81,15 +82,15 @@ elif kind == 'c05':
         q = ("$.items[?" + f + "]") if isinstance(doc, dict) else ("$[?" + f + "]")
         emit(q, doc)
 elif kind == 'c14':
-    VALS = [1, 1.0, 'a', 'b', None, True, [1], [1.0], {"k": 1}, [], {}]
-    ARRS = [[], [1], [1, 'a'], ['a', 'b'], [[1]], [None], [1.0], [{"k": 1}], [[], {}], 5, 'x', None, {}, [1, 1], ['a', 'a', 'b', 'a'], [1, 1, 1, 1], [[1], [1]], [None, None], ['b', 'a', 'b']]
+    VALS = [1, 1.0, 'a', 'b', None, True, False, 0, [1], [1.0], {"k": 1}, [], {}, '1', 'null', 'true', '[1]', '1.0', '{}', '', 'a,b']
+    ARRS = [[], [1], [1, 'a'], ['a', 'b'], [[1]], [None], [1.0], [{"k": 1}], [[], {}], 5, 'x', None, {}, [1, 1], ['a', 'a', 'b', 'a'], [1, 1, 1, 1], [[1], [1]], [None, None], ['b', 'a', 'b'], ['1'], ['null', 'true'], [None, True, 1], ['[1]', '{}'], [0.0, 0], ['1', 1]]
     for _ in range(N):
         fn = rnd.choice(['in', 'nin', 'any_of', 'none_of', 'subset_of'])
         elems = [rnd.choice(VALS + ARRS) for _ in range(rnd.choice([1, 2, 3, 4]))]
         lst = rnd.choice(ARRS)
         doc = {"elems": elems} if rnd.random() < 0.15 else {"elems": elems, "list": lst}
         neg = rnd.choice(['', '', '!'])
-        form = rnd.choice(["{n}{f}(@, $.list)", "{n}{f}(@,$.list)", "{n}{f}(@, $.missing)", "{n}{f}(@.k, $.list)", "{n}{f}(@[0], $.list)", "{n}{f}(1, $.list)", "{n}{f}('a', $.list)", "{n}{f}(@, $.list) && {f}(@, $.list)", "{n}{f}(@)", "{n}{f}(@, $.list, $.list)"])
+        form = rnd.choice(["{n}{f}(@, $.list)", "{n}{f}(@,$.list)", "{n}{f}(@, $.missing)", "{n}{f}(@.k, $.list)", "{n}{f}(@[0], $.list)", "{n}{f}(1, $.list)", "{n}{f}('a', $.list)", "{n}{f}(null, $.list)", "{n}{f}(true, $.list)", "{n}{f}('1', $.list)", "{n}{f}(1.0, $.list)", "{n}{f}(@, $.elems[0])", "{n}{f}($.list, @)", "{n}{f}(@[0], @)", "{n}{f}(@, $.list) && {f}(@, $.list)", "{n}{f}(@)", "{n}{f}(@, $.list, $.list)"])
         emit("$.elems[?" + form.format(n=neg, f=fn) + "]", doc)
 elif kind == 'c10':
     SUBJ = ['', 'a', 'ab', 'abc', 'b', 'xaby', 'a b', 'é', '𝄞', 'a𝄞', 'a\nb', '1', 'A']
@@ -98,8 +99,8 @@ elif kind == 'c10':
     for _ in range(N):
         r = rnd.random()
         items = [rnd.choice(ARGS) for _ in range(rnd.choice([2, 3, 5]))]
-        if r < 0.2: emit(f"$[?length(@){rnd.choice(['==','<','>='])}{rnd.choice([0,1,2,3])}]", items)
-        elif r < 0.35: emit(f"$[?count({rnd.choice(['@.*','@[0]','@..*','@[5]','@','$[*]'])}){rnd.choice(['==','<','>='])}{rnd.choice([0,1,2,3])}]", items)
+        if r < 0.2: emit(f"$[?length(@){rnd.choice(['==','<','>=','!='])}{rnd.choice([0,1,2,3,'1.0','2.0','1e0','20e-1'])}]", items)
+        elif r < 0.35: emit(f"$[?count({rnd.choice(['@.*','@[0]','@..*','@[5]','@','$[*]','@[0,0]','@[*,*]','@[0,-1,0]','@[0:2,1:]','@..[0,0]','$[0,0,0]','@[*,?@]'])}){rnd.choice(['==','<','>='])}{rnd.choice([0,1,2,3,'2.0','1e0','4','6'])}]", items)
         elif r < 0.5: emit(f"$[?value({rnd.choice(['@.*','@[0]','@..*','@[5]','@','@.a'])}){rnd.choice(['==','!='])}{rnd.choice(['1','null',chr(39)+'ab'+chr(39)])}]", items)
         elif r < 0.6: emit(f"$[?length(@.a)==length(@.b)]", [{"a": rnd.choice(ARGS), "b": rnd.choice(ARGS)} for _ in range(3)])
         else:
@@ -112,6 +113,7 @@ if kind == 'c13':
     NAMES = ['a', 'b', 'ab', 'c1', '_x', 'é']
     def ws(): return rnd.choice(['', '', ' ', '\t', '\n', '\r', '  '])
     def num_spell(v):  # v in small ints
+        if v == 100: return rnd.choice(['100', '1e2', '100.0', '1E+2', '10e1', '1000e-1'])
         if v == 0: return rnd.choice(['0', '-0', '0.0', '-0.0', '0e0', '-0e0', '0.00', '-0.0E+0', '0E-0'])
         return rnd.choice([str(v), f"{v}.0", f"{v}e0", f"{v}E0", f"{v*10}e-1", f"{v}.00"]) if v >= 0 else rnd.choice([str(v), f"{v}.0", f"{v}e0"])
     def name_sel(n, bracket_only=False):
@@ -119,7 +121,9 @@ if kind == 'c13':
         return rnd.choice(forms)
     def abstract_atom(d):
         r = rnd.random()
-        if r < 0.35: return ('cmp', ('sq', rnd.choice(['@', '$']), [rnd.choice(NAMES[:3]) for _ in range(rnd.choice([0, 1, 2]))]), rnd.choice(['==', '!=', '<', '<=', '>', '>=']), ('num', rnd.choice([0, 0, 1, 2, -1])))
+        if r < 0.25: return ('cmp', ('sq', rnd.choice(['@', '$']), [rnd.choice(NAMES[:3]) for _ in range(rnd.choice([0, 1, 2]))]), rnd.choice(['==', '!=', '<', '<=', '>', '>=']), ('num', rnd.choice([0, 0, 1, 2, -1])))
+        if r < 0.31: return ('cmp', ('fnv', rnd.choice(['length(@)', 'count(@.*)', 'value(@[0])', 'length(@.a)', 'count(@..*)'])), rnd.choice(['==', '!=', '<', '<=', '>', '>=']), ('num', rnd.choice([0, 1, 2, 3])))
+        if r < 0.35: return ('cmp', ('num', rnd.choice([0, 1, 2, 100])), rnd.choice(['==', '!=', '<', '>=']), ('num', rnd.choice([0, 1, 2, 100])))
         if r < 0.6: return ('test', rnd.random() < 0.3, abstract_query(d + 1, True))
         if r < 0.8 and d < 2: return ('paren', rnd.random() < 0.3, abstract_logical(d + 1))
         return ('cmp', ('sq', '@', [rnd.choice(NAMES[:3])]), '==', ('str', rnd.choice(['a', 'b', 'x y'])))
@@ -141,9 +145,15 @@ if kind == 'c13':
         return s
     def r_operand(o):
         if o[0] == 'sq': return r_sq(o)
+        if o[0] == 'fnv': return o[1]
         if o[0] == 'num': return num_spell(o[1])
         return rnd.choice(["'%s'", '"%s"']) % o[1]
     def r_atom(a):
+        s = r_atom0(a)
+        # redundant parentheses (a paren-expr around any sub-expression) never change the meaning
+        while rnd.random() < 0.2: s = '(' + ws() + s + ws() + ')'
+        return s
+    def r_atom0(a):
         if a[0] == 'cmp': return r_operand(a[1]) + ws() + a[2] + ws() + r_operand(a[3])
         if a[0] == 'test': return ('!' + ws() if a[1] else '') + r_query(a[2])
         inner = r_logical(a[2])
